@@ -1,10 +1,9 @@
-from collections import OrderedDict
 from dataclasses import (
     fields,
     MISSING,
 )
 
-from prettyprinter.prettyprinter import pretty_call, register_pretty
+from prettyprinter.prettyprinter import pretty_call_alt, register_pretty
 
 
 def is_instance_of_dataclass(value):
@@ -49,7 +48,8 @@ def pretty_dataclass_instance(value, ctx):
         if display_attr:
             kwargs.append((field_def.name, getattr(value, field_def.name)))
 
-    return pretty_call(ctx, cls, **OrderedDict(kwargs))
+    # pretty_call_alt: a field may be called 'ctx' or 'fn'.
+    return pretty_call_alt(ctx, cls, kwargs=kwargs)
 
 
 def install():
